@@ -19,7 +19,7 @@ import (
 
 // MV is the JSON-serialisable model of a "JSON-representable" lisp value.
 type MV struct {
-	K  string `json:"k"` // nil | bool | int | float | str | vec | list | map
+	K  string `json:"k"` // nil | bool | int | float | str | vec | list | map | expr (I indexes rtExprs: a float computed by the interpreter at run time)
 	B  bool   `json:"b,omitempty"`
 	I  int64  `json:"i,omitempty"`
 	FB uint64 `json:"fb,omitempty"` // float64 bits
@@ -34,6 +34,48 @@ type MKey struct {
 }
 
 func (m MV) F() float64 { return math.Float64frombits(m.FB) }
+
+// rtExprs are float-valued programs; an "expr" leaf of a model is the float
+// the interpreter computes for one of them at run time.
+var rtExprs = []string{
+	"(* -1e308 10.0)", "(/ -1.0 0.0)", "(- (* 1e308 10.0))", // -Inf
+	"(* 1e308 10.0)", "(/ 1.0 0.0)", // +Inf
+	"(- (* 1e308 10.0) (* 1e308 10.0))", "(* 0.0 (/ 1.0 0.0))", // NaN
+	"(* -1.0 0.0)", "(/ -1.0 (* 1e308 10.0))", "(- 0.0)", // -0.0 (the last one may be +0: whatever the interpreter says)
+	"(* 5e-324 3.0)", "(/ 1e-310 10.0)", "(/ 2.2250738585072014e-308 2.0)", "(* -5e-324 1.0)", // subnormals
+	"(/ 1.0 3.0)", "(* 1e21 1.0)", "(/ 1e21 10.0)", "(* 1e-7 10.0)", "(+ 9007199254740992.0 2.0)", "(* 1.7976931348623157e308 1.0)",
+}
+
+const (
+	rtNegInfLast = 2
+	rtPosInfLast = 4
+	rtNaNLast    = 6
+)
+
+// resolve replaces every expr leaf by the float the interpreter computes for
+// it (model side).  A program that does not yield a float is a harness error.
+func (m MV) resolve(e *elps) (MV, *vcommon.Failure) {
+	if m.K == "expr" {
+		v := e.evalExpr(int(m.I))
+		if v == nil || v.Type != lisp.LFloat {
+			return m, vcommon.Failf("selfcheck/rt-expr", "%s does not evaluate to a float: %v", rtExprs[m.I], v)
+		}
+		return MV{K: "float", FB: math.Float64bits(v.Float)}, nil
+	}
+	if len(m.L) == 0 {
+		return m, nil
+	}
+	out := m
+	out.L = make([]MV, len(m.L))
+	for i := range m.L {
+		c, f := m.L[i].resolve(e)
+		if f != nil {
+			return m, f
+		}
+		out.L[i] = c
+	}
+	return out, nil
+}
 
 func (m MV) depth() int {
 	d := 0
@@ -60,6 +102,9 @@ func (m MV) toLVal() *lisp.LVal {
 		return lisp.Int(int(m.I))
 	case "float":
 		return lisp.Float(m.F())
+	case "expr":
+		// the very LVal the interpreter produced, not a re-built one
+		return getElps().evalExpr(int(m.I))
 	case "str":
 		return lisp.String(string(m.S))
 	case "vec", "list":
@@ -152,6 +197,8 @@ func (m MV) canon(b *strings.Builder) {
 		fmt.Fprintf(b, "i%d", m.I)
 	case "float":
 		fmt.Fprintf(b, "f%x", m.FB)
+	case "expr":
+		fmt.Fprintf(b, "e%d", m.I)
 	case "str":
 		fmt.Fprintf(b, "%q", m.S)
 	case "vec", "list":
@@ -216,7 +263,7 @@ func getElps() *elps {
 	elpsOnce.Do(func() {
 		rt := vcommon.NewRuntime(vcommon.Cfg{})
 		e := &elps{rt: rt, env: rt.Env, fn: map[string]*lisp.LVal{}}
-		for _, name := range []string{"json:dump-string", "json:dump-bytes", "json:load-string", "json:load-bytes", "equal?"} {
+		for _, name := range []string{"json:dump-string", "json:dump-bytes", "json:dump-message", "json:message-bytes", "json:load-string", "json:load-bytes", "equal?"} {
 			f := rt.Env.GetFun(lisp.Symbol(name))
 			if f.Type != lisp.LFun {
 				panic(fmt.Sprintf("cannot look up %s: %v", name, f))
@@ -237,6 +284,15 @@ func (e *elps) call(name string, args ...*lisp.LVal) (res *lisp.LVal, pan string
 		}
 	}()
 	return e.env.FunCall(e.fn[name], lisp.SExpr(args)), ""
+}
+
+// evalExpr evaluates rtExprs[i] in the interpreter (a fresh evaluation per
+// call: the float is computed at run time).
+func (e *elps) evalExpr(i int) *lisp.LVal {
+	if i < 0 || i >= len(rtExprs) {
+		return nil
+	}
+	return e.env.LoadString("c13-expr.lisp", rtExprs[i])
 }
 
 // callEval binds the first argument as a global and evaluates a source form
@@ -710,11 +766,27 @@ func needsEscape(s []byte, c *cls) bool {
 func checkValue(vc ValueCase, ctx *vcommon.Ctx) *vcommon.Failure {
 	c := newCls(ctx)
 	e := getElps()
-	m := vc.V
+	raw := vc.V // may hold expr leaves; raw.toLVal() uses the interpreter's own floats
+	m, rf := raw.resolve(e)
+	if rf != nil {
+		return rf
+	}
+	if hasExpr(raw) {
+		c.Class("float-computed-at-run-time")
+	}
+	if k := nonFiniteKind(m); k != "" {
+		return vcommon.Failf("selfcheck/nonfinite-in-value-case", "value case holds a %s float; those belong to the nonfinite sub-property", k)
+	}
 	interesting := classifyValue(m, c)
-	if m.depth() >= 2 {
+	if d := m.depth(); d >= 2 {
 		c.Class("depth>=2")
 		interesting = true
+		if d >= 64 {
+			c.Class("depth>=64 (encoder guard depth)")
+		}
+		if d >= 100 {
+			c.Class("depth>=100")
+		}
 	}
 	c.Class(fmt.Sprintf("mode/dumpSN=%v,loadSN=%v,loadEI=%v", vc.DumpSN, vc.LoadSN, vc.LoadEI))
 	if vc.Bytes {
@@ -734,21 +806,37 @@ func checkValue(vc ValueCase, ctx *vcommon.Ctx) *vcommon.Failure {
 		dumpFn, otherDump = otherDump, dumpFn
 		loadFn = "json:load-bytes"
 	}
-	// (a) dump, twice through the primary path and once through the other
-	var docs [3][]byte
-	for i := 0; i < 3; i++ {
+	// (a) dump: twice through the primary path, once through the other one,
+	// once through json:dump-message + json:message-bytes
+	var docs [4][]byte
+	for i := 0; i < 4; i++ {
 		fn, isBytes := dumpFn, vc.Bytes
 		if i == 2 {
 			fn, isBytes = otherDump, !vc.Bytes
 		}
+		if i == 3 {
+			fn, isBytes = "json:dump-message", true
+		}
 		// a fresh LVal per call: determinism must not depend on object identity
-		v, pan := e.invoke(fn, m.toLVal(), vc.OmitFalse, vc.ViaEval && i == 0, flag{"string-numbers", vc.DumpSN})
+		v, pan := e.invoke(fn, raw.toLVal(), vc.OmitFalse, vc.ViaEval && i == 0, flag{"string-numbers", vc.DumpSN})
 		r, f := observe(fn, v, pan)
 		if f != nil {
 			return f
 		}
 		if r.err {
 			return vcommon.Failf("dump/error", "%s signalled %s (%s) for a JSON-representable value %s", fn, r.cond, r.msg, describe(m.toLVal()))
+		}
+		if i == 3 {
+			if r.v.Type != lisp.LNative {
+				return vcommon.Failf("dump/result-type", "json:dump-message returned %s", describe(r.v))
+			}
+			v, pan = e.call("json:message-bytes", r.v)
+			if r, f = observe("json:message-bytes", v, pan); f != nil {
+				return f
+			}
+			if r.err {
+				return vcommon.Failf("dump/message-bytes-error", "json:message-bytes of a dumped message signalled %s (%s)", r.cond, r.msg)
+			}
 		}
 		b, bad := dumpedBytes(r, isBytes)
 		if bad != "" {
@@ -763,6 +851,9 @@ func checkValue(vc ValueCase, ctx *vcommon.Ctx) *vcommon.Failure {
 	}
 	if !bytes.Equal(doc, docs[2]) {
 		return vcommon.Failf("dump/string-vs-bytes", "%s gives %q but %s gives %q", dumpFn, doc, otherDump, docs[2])
+	}
+	if !bytes.Equal(doc, docs[3]) {
+		return vcommon.Failf("dump/string-vs-message", "%s gives %q but json:dump-message gives %q", dumpFn, doc, docs[3])
 	}
 	n, info, err := refParse(doc)
 	if err != nil {
@@ -787,9 +878,19 @@ func checkValue(vc ValueCase, ctx *vcommon.Ctx) *vcommon.Failure {
 		// decided about loading it back
 		return d.deferred
 	}
+	// byte for byte against the independent reference encoder
+	var want bytes.Buffer
+	refEncode(&want, m, vc.DumpSN)
+	if !bytes.Equal(doc, want.Bytes()) {
+		i := 0
+		for i < len(doc) && i < want.Len() && doc[i] == want.Bytes()[i] {
+			i++
+		}
+		return vcommon.Failf("dump/bytes-differ-from-reference", "dumped document differs from the reference encoder's at byte %d:\n got  %q\n want %q", i, clip(doc, i), clip(want.Bytes(), i))
+	}
 
 	// (b) load the dumped document back
-	want := expectLoad(m, n, vc.DumpSN, vc.LoadSN, vc.LoadEI)
+	exp := expectLoad(m, n, vc.DumpSN, vc.LoadSN, vc.LoadEI)
 	var arg *lisp.LVal
 	if vc.Bytes {
 		arg = lisp.Bytes(append([]byte{}, doc...))
@@ -809,7 +910,7 @@ func checkValue(vc ValueCase, ctx *vcommon.Ctx) *vcommon.Failure {
 		}
 		return vcommon.Failf(key, "%s (%s) rejects the document %q that dump produced: %s: %s", loadFn, mode, doc, r.cond, r.msg)
 	}
-	if diff := cmpLoaded(want, r.v, "$"); diff != "" {
+	if diff := cmpLoaded(exp, r.v, "$"); diff != "" {
 		key := "roundtrip/value"
 		if vc.LoadEI && !vc.LoadSN && !vc.DumpSN {
 			key = "roundtrip/value-exact-integers"
@@ -828,6 +929,131 @@ func checkValue(vc ValueCase, ctx *vcommon.Ctx) *vcommon.Failure {
 				return vcommon.Failf("roundtrip/equal?", "(equal? %s %s) is %s for document %q under %s", describe(order[0]), describe(order[1]), describe(ev), doc, mode)
 			}
 		}
+	}
+	return nil
+}
+
+// clip shows the neighbourhood of byte i of a (possibly very long) document.
+func clip(b []byte, i int) string {
+	lo, hi := i-60, i+60
+	if lo < 0 {
+		lo = 0
+	}
+	if hi > len(b) {
+		hi = len(b)
+	}
+	s := string(b[lo:hi])
+	if lo > 0 {
+		s = "..." + s
+	}
+	if hi < len(b) {
+		s += "..."
+	}
+	return s
+}
+
+func hasExpr(m MV) bool {
+	if m.K == "expr" {
+		return true
+	}
+	for _, c := range m.L {
+		if hasExpr(c) {
+			return true
+		}
+	}
+	return false
+}
+
+// nonFiniteKind names the first non-finite float of a resolved model
+// (effective map entries only).
+func nonFiniteKind(m MV) string {
+	if m.K == "float" {
+		switch f := m.F(); {
+		case math.IsNaN(f):
+			return "nan"
+		case math.IsInf(f, 1):
+			return "+inf"
+		case math.IsInf(f, -1):
+			return "-inf"
+		}
+	}
+	kids := m.L
+	if m.K == "map" {
+		_, kids = m.entries() // a value shadowed by a later MapSet of the same key is not part of the map
+	}
+	for _, c := range kids {
+		if k := nonFiniteKind(c); k != "" {
+			return k
+		}
+	}
+	return ""
+}
+
+// ---------- non-finite floats: no JSON text denotes them, so every dump
+// builtin must refuse the value with an ordinary error ----------
+
+type NonFiniteCase struct {
+	V         MV   `json:"v"`          // holds >= 1 non-finite float (host-built bits or a run-time expr)
+	SN        bool `json:"sn"`         // :string-numbers
+	OmitFalse bool `json:"omit_false"` // false keyword omitted instead of passed
+	ViaEval   bool `json:"via_eval"`
+}
+
+func checkNonFinite(nc NonFiniteCase, ctx *vcommon.Ctx) *vcommon.Failure {
+	c := newCls(ctx)
+	e := getElps()
+	m, rf := nc.V.resolve(e)
+	if rf != nil {
+		return rf
+	}
+	kind := nonFiniteKind(m)
+	if kind == "" {
+		return vcommon.Failf("selfcheck/nonfinite-missing", "non-finite case without a non-finite float")
+	}
+	c.Class("kind/" + kind)
+	if hasExpr(nc.V) {
+		c.Class("float-computed-at-run-time")
+	} else {
+		c.Class("float-host-built")
+	}
+	if m.K == "float" {
+		c.Class("position/top-level")
+	} else {
+		c.Class("position/nested")
+		if m.depth() >= 64 {
+			c.Class("depth>=64 (encoder guard depth)")
+		}
+	}
+	c.Class(fmt.Sprintf("string-numbers=%v", nc.SN))
+	var b strings.Builder
+	nc.V.canon(&b)
+	c.NonTrivial(fmt.Sprintf("%s|%v", b.String(), nc.SN))
+	for i, fn := range []string{"json:dump-string", "json:dump-bytes", "json:dump-message"} {
+		v, pan := e.invoke(fn, nc.V.toLVal(), nc.OmitFalse, nc.ViaEval && i == 0, flag{"string-numbers", nc.SN})
+		r, f := observe(fn, v, pan)
+		if f != nil {
+			return f
+		}
+		if r.err {
+			continue
+		}
+		var doc []byte
+		switch {
+		case r.v.Type == lisp.LString:
+			doc = []byte(r.v.Str)
+		case r.v.Type == lisp.LBytes:
+			doc = r.v.Bytes()
+		case r.v.Type == lisp.LNative:
+			if mb, pan := e.call("json:message-bytes", r.v); pan == "" && mb != nil && mb.Type == lisp.LBytes {
+				doc = mb.Bytes()
+			}
+		}
+		_, _, perr := refParse(doc)
+		verdict := "which is not even JSON"
+		if perr == nil {
+			verdict = "which is JSON but cannot denote the value"
+		}
+		return vcommon.Failf("dump/nonfinite-not-refused/"+kind, "%s (string-numbers=%v) of a value holding a %s float returns %q, %s (%v); the only faithful outcome is a refusal", fn, nc.SN, kind, doc, verdict, perr)
 	}
 	return nil
 }
